@@ -17,27 +17,34 @@ let show_res = function
   | SPanic -> "panic"
   | SOk (note, ini) -> show (show_note note) ^ " " ^ show (show_init ini)
 
-(* in: ATTRS COMMITTED UNSTAGED PURE   out: (note (AUTHOR RANGE...)...) (init (AUTHOR start end)...) | panic *)
+let hunks_of_sx x =
+  List.map (fun h -> match list h with
+      | [o; s; n] -> ((n_of_int (num o), n_of_int (num s)), n_of_int (num n))
+      | _ -> failwith "hunk") (list x)
+let show_hunks hs =
+  L (List.map (fun ((o, s), n) -> L [N (int_of_n o); N (int_of_n s); N (int_of_n n)]) hs)
+
+(* in: ATTRS COMMITTED UNSTAGED HUNKS   (HUNKS = ((old_count new_start new_count) ...))
+   out: (note (AUTHOR RANGE...)...) (init (AUTHOR start end)...) | panic *)
 let c04_split body =
   match parse_many body with
-  | [a; k; u; p] -> show_res (split_file (attrs_of a) (nlist k) (nlist u) (nlist p))
+  | [a; k; u; h] -> show_res (split_file (attrs_of a) (nlist k) (nlist u) (hunks_of_sx h))
   | _ -> failwith "c04-split: bad case"
 
 (* in: P C W ATTRS
-   out: (committed ..) (unstaged ..) (pure ..) RES (sc b) (struct b) (wf3 b) (awf b) (nohidden b) (tail b) (v panic note_ok init_ok nodup) *)
+   out: (committed ..) (unstaged ..) (hunks ..) RES (wf3 b) (awf b) (nohidden b) (v panic note_ok init_ok nodup) *)
 let c04_spec body =
   match parse_many body with
   | [p; c; w; a] ->
       let p = nlist p and c = nlist c and w = nlist w and a = attrs_of a in
       let r = run_spec p c w a in
       let v = spec_verdict p c w a r in
-      Printf.sprintf "%s %s %s %s (sc %s) (struct %s) (wf3 %s) (awf %s) (nohidden %s) (tail %s) (v %s %s %s %s)"
+      Printf.sprintf "%s %s %s %s (wf3 %s) (awf %s) (nohidden %s) (v %s %s %s %s)"
         (show (L [Sym "committed"; show_nlist (committed p c)]))
         (show (L [Sym "unstaged"; show_nlist (unstaged c w)]))
-        (show (L [Sym "pure"; show_nlist (pure_ins c w)]))
+        (show (L [Sym "hunks"; show_hunks (hunks_of c w)]))
         (show_res r)
-        (bool_s (shift_consistent p c w)) (bool_s (shift_consistent_struct p c w))
-        (bool_s (wf3 p c w)) (bool_s (attrs_wfb w a)) (bool_s (no_hidden p c w)) (bool_s (tail_only c w))
+        (bool_s (wf3 p c w)) (bool_s (attrs_wfb w a)) (bool_s (no_hidden p c w))
         (bool_s v.v_panic) (bool_s v.v_note_ok) (bool_s v.v_init_ok) (bool_s v.v_nodup)
   | _ -> failwith "c04-spec: bad case"
 
